@@ -788,7 +788,7 @@ package leader
 //@   on ret KeyValue.Get as g set getEnt = g.result0
 //@   on ret KeyValue.Get set got = true
 //@   on store kvElection.revision assert C07+C01.leader_never_adopts_observed_revision: !sawLeader
-//@   on store kvElection.leaderID assert C07+C18.leader_never_adopts_observed_id: !sawLeader
+//@   on store kvElection.leaderID as s assert C07+C18.leader_never_adopts_observed_id: !sawLeader || s.value == e.cfg.InstanceID
 //@   ensures C06.vacancy_triggers_acquire: got && (getErr != nil || getEnt == nil || LenOf(EntryVal(getEnt)) == 0) ==> spawns(attemptAcquireWithRetry) == 1
 //@   ensures C13.no_acquire_on_live_record: got && getErr == nil && getEnt != nil && LenOf(EntryVal(getEnt)) != 0 ==> spawns(attemptAcquireWithRetry) == 0
 //@   ensures C06.leader_skips: !got ==> spawns(attemptAcquireWithRetry) == 0
@@ -804,7 +804,7 @@ package leader
 //@   on load kvElection.revision as l set ownRev = l.value
 //@   on load kvElection.revision set revLoaded = true
 //@   on store kvElection.revision assert C07+C01.leader_never_adopts_observed_revision: !sawLeader
-//@   on store kvElection.leaderID assert C07+C18.leader_never_adopts_observed_id: !sawLeader
+//@   on store kvElection.leaderID as s assert C07+C18.leader_never_adopts_observed_id: !sawLeader || s.value == e.cfg.InstanceID
 //@   on call becomeFollower set demote_cause = sawLeader && ParseOK(EntryVal(entry)) && IDOf(EntryVal(entry)) != e.cfg.InstanceID && revLoaded && EntryRev(entry) > ownRev
 //@   on ret becomeFollower as r set cleared = r.result
 //@   on spawn handleWatchEvent$1 assert C10.watch_gate: e.cfg.AllowPriorityTakeover && ParseOK(EntryVal(entry)) && e.cfg.Priority > PrioOf(EntryVal(entry))
